@@ -1101,9 +1101,16 @@ func (x *c20Run) exec(op c20Op) {
 		if e, isEsc := x.escIdx[to.String()]; isEsc && res.OK() {
 			var owner string
 			if e[0] == 1 {
-				owner = before.findPerp(uint64(e[1])).OwnerAddress
+				if o := before.findPerp(uint64(e[1])); o != nil {
+					owner = o.OwnerAddress
+				}
 			} else {
-				owner = before.findSpot(uint64(e[1])).OwnerAddress
+				if o := before.findSpot(uint64(e[1])); o != nil {
+					owner = o.OwnerAddress
+				}
+			}
+			if owner == "" { // the escrow account of no pending order (two orders sharing one address would end up here)
+				return
 			}
 			k := [2]int{x.uidx[owner] - 1, d}
 			if x.don[k] == nil {
@@ -1281,8 +1288,13 @@ func c20Exec(t *testing.T, col *Collector, h c20Hist) string {
 		x.uidx[a.String()] = i + 1
 	}
 	for id := uint64(1); id < 400; id++ {
-		x.escIdx[tstypes.GetSpotOrderAddress(id).String()] = [2]int{0, int(id)}
-		x.escIdx[tstypes.GetPerpOrderAddress(id).String()] = [2]int{1, int(id)}
+		for kind, a := range []string{tstypes.GetSpotOrderAddress(id).String(), tstypes.GetPerpOrderAddress(id).String()} {
+			if prev, dup := x.escIdx[a]; dup {
+				// every order must have an escrow account of its own: two pending orders sharing one would pay each other's funds out
+				x.fail("C20:two-orders-share-an-escrow-address", fmt.Sprintf("order (kind %d, id %d) and order (kind %d, id %d) have the same escrow address %s", prev[0], prev[1], kind, id, a))
+			}
+			x.escIdx[a] = [2]int{kind, int(id)}
+		}
 	}
 	m.RefreshPrices()
 	if err := w.EndBlock(5); err != nil {
